@@ -418,6 +418,20 @@ def header_records(rng):
                     except Exception as e:
                         rec['out'] = {'err': type(e).__name__}
                     out.append(rec)
+        # the cell handed to the header check is itself a Merkle proof cell (a tree whose root is one): it is checked like any other
+        # cell - by its own level-0 hash, not by the hash of what it wraps
+        if mask in (0, 5):
+            mp = mproof(bp)
+            for want, label, genuine in ((mp.get_hash(0), 'genuine_header_root_is_a_merkle_proof_cell', True),
+                                         (block.hash, 'forged_hash_of_the_wrapped_tree_for_a_merkle_rooted_tree', False)):
+                heap, roots, _ = ck.project([mp])
+                rec = {'op': 'header', 'label': label, 'genuine': int(genuine), 'cells': heap, 'root': roots[0], 'want': list(want), 'store': 0}
+                try:
+                    check_block_header_proof(mp, want, False)
+                    rec['out'] = {'ok': 1}
+                except Exception as e:
+                    rec['out'] = {'err': type(e).__name__}
+                out.append(rec)
         # altered header data
         bad = begin_cell().store_bits(block.bits[:-1]).store_bit(1 - block.bits[-1])
         for c in ch:
